@@ -31,6 +31,11 @@ func (s *Service) scoreAggregateAttestation(_ context.Context,
 
 	included := 0
 	total := aggregate.AggregationBits.Len()
+	if total == 0 {
+		// An aggregate without any positions; avoid a score that is not a number,
+		// which no later score would compare higher than.
+		return 0
+	}
 	for i := range total {
 		if aggregate.AggregationBits.BitAt(i) {
 			included++
